@@ -48,6 +48,7 @@ def run(ctx):
                       PL.case_replay(c, o), found_input=False,
                       what="correspondence accepts_pool <-> direct C02 oracle no longer holds")
     tie_patterns(ctx)
+    skeleton_correspondence(ctx)
     if tmeta:
         c, o = tmeta[len(tmeta) // 3]
         r = PL.case_replay(c, o)
@@ -98,6 +99,90 @@ def tie_patterns(ctx):
                 if res:
                     ctx.violation("UncertaintySampling", res[0], res[1], {"table": table, "labeled": lab, "bs": bs}, what=res[1])
     ctx.extra["exhaustive_subspace"] = f"all {len(vals)}^{n} score tables over {{0.5,0.5,0.7,0.9}} for the skeleton (UncertaintySampling with a scripted classifier)"
+
+
+def skeleton_correspondence(ctx):
+    """Functional correspondence of Model/PoolQuery.skeleton (NaN-filled utilities, scores scattered through
+    the mapping, simple_batch) with UncertaintySampling.query driven by a scripted classifier: the scores
+    are computed independently (uncertainty_scores on the scripted probabilities), the tie-breaking noise is
+    reproduced from the strategy's random state, and the model has to return the same indices AND the same
+    utility rows for all three ways of giving candidates."""
+    import warnings
+    from skactiveml.base import SkactivemlClassifier
+    from skactiveml.pool import UncertaintySampling
+    from skactiveml.pool._uncertainty_sampling import uncertainty_scores
+    from ..core import fkey, rank_keys, noise_num, vlist, zlist, natlit, natlist, listlit, blit
+
+    class Scripted(SkactivemlClassifier):
+        def __init__(self, table=None, classes=None, missing_label=np.nan, random_state=None):
+            super().__init__(classes=classes, missing_label=missing_label, random_state=random_state)
+            self.table = table
+
+        def fit(self, X, y, sample_weight=None):
+            self._validate_data(X, y, sample_weight)
+            return self
+
+        def predict_proba(self, X):
+            p = np.array([self.table[int(x[0])] for x in np.asarray(X)])
+            return np.column_stack([p, 1 - p])
+
+    rng = ctx.rng("skeleton")
+    terms, meta = [], []
+    for h in range(300 if ctx.is_quick else 3000):
+        n = int(rng.integers(2, 8))
+        vals = rng.choice([0.5, 0.6, 0.75, 0.9, 1.0], size=int(rng.integers(1, 4)), replace=False)
+        table = [float(v) for v in rng.choice(vals, size=n)]
+        X = np.arange(n, dtype=float).reshape(-1, 1)
+        y = np.where(rng.random(n) < 0.35, 0.0, np.nan)
+        if not np.isnan(y).any():
+            y[int(rng.integers(0, n))] = np.nan
+        cmode = str(rng.choice(["none", "idx", "feat"]))
+        if cmode == "none":
+            cand, cs, ncols, kind, cl, cm = None, [int(i) for i in np.flatnonzero(np.isnan(y))], n, 0, [], 0
+        elif cmode == "idx":
+            cand = rng.integers(0, n, size=int(rng.integers(1, n + 2)))       # unsorted, duplicates, labeled samples allowed
+            cs, ncols, kind, cl, cm = sorted({int(i) for i in cand}), n, 1, [int(i) for i in cand], 0
+        else:
+            m = int(rng.integers(1, n + 1))
+            rows = rng.integers(0, n, size=m)
+            cand = X[rows]
+            cs, ncols, kind, cl, cm = list(range(m)), m, 2, [], m
+        bs = int(rng.integers(1, len(cs) + 3))
+        seed = int(rng.integers(0, 1000))
+        clf = Scripted(table=table, classes=[0, 1])
+        with warnings.catch_warnings():
+            warnings.simplefilter("ignore")
+            qs = UncertaintySampling(random_state=seed)
+            idx, ut = qs.query(X, y, clf=clf, fit_clf=False, candidates=cand, batch_size=bs, return_utilities=True)
+            twin = UncertaintySampling(random_state=seed)
+            twin._validate_data(X, y, cand, bs, True)           # the random state query started from
+        Xc = X[cs] if cmode != "feat" else cand
+        scores = uncertainty_scores(clf.predict_proba(Xc), method="least_confident")
+        k = min(bs, len(cs))
+        noises = [twin.random_state_.random(ncols) for _ in range(k)]
+        ut = np.asarray(ut, dtype=float)
+        keys = rank_keys([fkey(v) for v in scores] + [fkey(v) for v in ut.ravel()])
+        sk, uk = keys[:len(scores)], keys[len(scores):]
+        w = ut.shape[1]
+        steps = listlit([f"({natlit(int(p))}, {vlist(uk[r * w:(r + 1) * w])})" for r, p in enumerate(np.asarray(idx).ravel())])
+        nz = listlit([zlist(rank_keys([noise_num(x) for x in z])) for z in noises])
+        lab = listlit([blit(not np.isnan(v)) for v in y])
+        terms.append(f"({lab}, {natlit(kind)}, {natlist(cl)}, {natlit(cm)}, {natlit(bs)}, {vlist(sk)}, {nz}, {steps})")
+        meta.append({"table": table, "y": [None if np.isnan(v) else v for v in y], "candidates_mode": cmode,
+                     "candidates": None if cand is None else np.asarray(cand).tolist(), "batch_size": bs, "seed": seed,
+                     "returned_indices": np.asarray(idx).tolist()})
+        ctx.count("skeleton_correspondence")
+        ctx.hist["skeleton:" + cmode] += 1
+        if k >= 2 and len(set(table)) < len(table):
+            ctx.nontriv(("skeleton", tuple(table), y.tobytes(), cmode, repr(meta[-1]["candidates"]), bs, seed))
+    bad, err = ctx.coq_eval_cases("skeleton", PL.IMPORTS, "check_skeleton", terms, chunk=150)
+    if err:
+        ctx.violation("skeleton", "model_eval_failed", err, {}, found_input=False, what="Coq evaluation of check_skeleton failed")
+    for i in bad[:5]:
+        ctx.violation("UncertaintySampling", "skeleton_mismatch", "Model/PoolQuery.skeleton and UncertaintySampling.query disagree on indices or utility rows",
+                      meta[i], found_input=False, what="correspondence skeleton <-> UncertaintySampling.query (scripted classifier) no longer holds")
+    if meta:
+        ctx.sample({"skeleton_case": meta[0]})
 
 
 def replay(ctx, path):
